@@ -8,7 +8,8 @@ class Prop:
     pid = "C05"
     vo_check = ["theories/Replay/Check.vo"]
     vo_props = ["theories/Props/C05.vo"]
-    k_names = ["verdicts(replay.Filter.ValidateCounter/Reset == Replay.Model.step)"]
+    k_names = ["verdicts(replay.Filter.ValidateCounter/Reset == Replay.Model.step)",
+               "device(receive path: authenticated transport with counter c reaches the TUN iff Replay.Spec accepts c)"]
     rule = ("histories of ValidateCounter/Reset from one PRNG: forward jumps {1..2^32}, positions behind the greatest "
             "counter around every block (64) and window (8128) edge, duplicates, limit neighbourhood, Reset; "
             "non-trivial = history reaches at least 3 of the 5 specification branches "
@@ -32,8 +33,9 @@ class Prop:
 
     def generate(self, seed, tier, mult):
         n = (400 if tier == "quick" else 6000) * mult
+        ndev = (30 if tier == "quick" else 300) * mult
         shards = 16 if tier == "quick" else 64
-        return self._run_go(["-seed", str(seed), "-n", str(n), "-shards", str(shards), "-out", self.dir,
+        return self._run_go(["-seed", str(seed), "-n", str(n), "-shards", str(shards), "-ndev", str(ndev), "-out", self.dir,
                              "-corpus", os.path.join(vlib.ROOT, "corpus", "C05")])
 
     def failures(self, outputs, files, cases):
@@ -57,7 +59,7 @@ class Prop:
         d = os.path.join(self.dir, "rerun")
         os.makedirs(d, exist_ok=True)
         inp = os.path.join(d, "in.json")
-        json.dump([{"ops": c["ops"]} for c in cases], open(inp, "w"))
+        json.dump([{"ops": c["ops"], "gen": c.get("gen", "")} for c in cases], open(inp, "w"))
         exe = vlib.build_go("c05")
         rc, o = vlib.sh([exe, "-replay", inp, "-out", d], cwd=vlib.ROOT, timeout=600)
         if rc != 0:
@@ -81,11 +83,11 @@ class Prop:
             for i in range(0, n, chunk):
                 cand = ops[:i] + ops[i + chunk:]
                 if cand and len(cand) < n:
-                    yield {"ops": cand}
+                    yield {"ops": cand, "gen": case.get("gen", "")}
             chunk //= 2
 
     def signature(self, case, f):
-        return "verdict-differs-from-spec"
+        return "verdict-differs-from-spec" + ("-device" if case.get("gen") == "device" else "")
 
     def nontrivial(self, c):
         # at least two different verdicts and a counter repeated or out of order
